@@ -1002,6 +1002,19 @@ def must_derive(body, local, is_src, extra_transparent=(), allow_partial=False, 
                     op = rv.ops[0]
                     if op.kind == 'const':
                         return fail('%s assigned constant %s at %s' % (body.lname(l), op.txt(), body.loc(bb, si)))
+                    # field of a locally built tuple: follow the matching operand of every aggregate that defines the tuple
+                    pl = op.place
+                    if len(pl[1]) == 1 and pl[1][0][0] == 'f' and body.lty(pl[0]).startswith('('):
+                        tdefs = body.defs.get(pl[0], [])
+                        if tdefs and all(k2 == 'assign' and o2.kind == 'assign' and not o2.place[1] and o2.rv.r == 'aggregate' and o2.rv.j.get('agg') == 'tuple' for (_, _, k2, o2) in tdefs):
+                            okt = True
+                            for (_, _, _, o2) in tdefs:
+                                eop = o2.rv.ops[pl[1][0][1]]
+                                if eop.kind == 'const' or not rec(eop.place[0]):
+                                    okt = False
+                            if not okt:
+                                return fail('tuple field %s does not derive from the source on every path' % place_str(body, pl))
+                            continue
                     if not rec(op.place[0]):
                         return False
                 elif rv.r in ('ref', 'rawptr'):
